@@ -30,6 +30,10 @@ CLASSES = {
     "missing-gradient": ("fill=url(#missing)", VECTOR),
     "pattern-fill": ("a <pattern> fill", VECTOR),
     "bad-colour": ("an invalid colour string", VECTOR),
+    "bad-colour-hex10": ("a hex colour with ten digits (#FF8000FF00)", VECTOR),
+    "bad-colour-hex5": ("a hex colour with five digits (#12345)", VECTOR),
+    "bad-colour-nonhex": ("a hex colour with non-hex digits (#GG0000)", VECTOR),
+    "bad-stop-colour": ("an invalid stop-color in a gradient", VECTOR),
     "bad-spread": ("an unknown spreadMethod", VECTOR),
     "palette-conflict": ("two colours declared for one palette index", ["glyf_colr_1", "glyf_colr_0"]),
     "no-codepoints": ("a file name without codepoints", ALL5),
@@ -55,6 +59,10 @@ def defective(cls):
         return [(None, svg(SHAPE.format(f="url(#p)"), defs='<pattern id="p" width="10" height="10" patternUnits="userSpaceOnUse"><path d="M0,0 L5,5 Z"/></pattern>'))]
     if cls == "bad-colour":
         return [(None, svg(SHAPE.format(f="notacolour")))]
+    if cls in ("bad-colour-hex10", "bad-colour-hex5", "bad-colour-nonhex"):
+        return [(None, svg(SHAPE.format(f={"bad-colour-hex10": "#FF8000FF00", "bad-colour-hex5": "#12345", "bad-colour-nonhex": "#GG0000"}[cls])))]
+    if cls == "bad-stop-colour":
+        return [(None, svg(SHAPE.format(f="url(#g)"), defs='<linearGradient id="g"><stop offset="0" stop-color="#FF8000FF00"/><stop offset="1" stop-color="blue"/></linearGradient>'))]
     if cls == "bad-spread":
         return [(None, svg(SHAPE.format(f="url(#g)"), defs='<linearGradient id="g" spreadMethod="mirror"><stop offset="0" stop-color="red"/><stop offset="1" stop-color="blue"/></linearGradient>'))]
     if cls == "palette-conflict":
@@ -193,7 +201,7 @@ def execute(case):
     return exec_inproc(case)
 
 
-INPROC = {"missing-gradient": "picosvg-like", "pattern-fill": "picosvg-like", "bad-colour": "picosvg-like", "bad-spread": "picosvg-like",
+INPROC = {"missing-gradient": "picosvg-like", "pattern-fill": "picosvg-like", "bad-colour": "picosvg-like", "bad-colour-hex10": "picosvg-like", "bad-colour-hex5": "picosvg-like", "bad-colour-nonhex": "picosvg-like", "bad-stop-colour": "picosvg-like", "bad-spread": "picosvg-like",
           "palette-conflict": "colr", "bitmap-too-big": "cbdt"}
 
 
@@ -227,7 +235,7 @@ def run(report, tier, only=None):
                     cases.append({"kind": "inproc", "cls": cls, "fmt": fmt, "idx": idx})
         listing.run(report, cases, execute, timeout=120)
     report.rule = (
-        "fault enumeration: 12 defect classes x position of the defective source among 0-2 valid ones (quick: alone + the three positions among two "
+        "fault enumeration: 16 defect classes x position of the defective source among 0-2 valid ones (quick: alone + the three positions among two "
         "valid; thorough: all six) x the colour-format families the class applies to (content defects also with --noclip_to_viewbox), on the real `nanoemoji` command in a fresh directory "
         "(must exit non-zero and leave no Font.ttf); two multi-master defect classes x master order; six classes in-process x all applicable formats "
         "of the 13; distinct = class x format"
